@@ -10,8 +10,10 @@ B streams: csvfile.load/table (tables x option product x EOL x BOM x mode), csvf
       csvfile.save (save_csv bytes on disk), csvr.reader (csv.reader on written lines, soup, several
       lines), csvr.nllines (newline=''), csvr.native (load_native_csv), csvr.simple (load_simple_csv)
 C evaluators: roundtrip (one transcription per header mode), refused, empty_file, csv_module
-      (csv.reader / load_native_csv / load_simple_csv agreement), reader_agrees, reader_vs_parse,
-      native_agrees, simple_agrees, simple_soup, strip_field, strip_line_clean, keep_empty_lines
+      (csv.reader / load_native_csv / load_simple_csv agreement), eol_bom_invariant (LF/CRLF x BOM x
+      read mode, also under strip_field / strip_line), reader_agrees, reader_vs_parse, native_agrees
+      (also files that start with blank lines), simple_agrees, simple_soup, strip_field,
+      strip_line_clean, keep_empty_lines (the last three in text and in binary read mode)
 """
 import atexit
 import csv
@@ -53,6 +55,13 @@ MANIFEST = dict(
     "the surrounding blanks), C14_strip_line_clean / C14_strip_line_clean_cells (strip_line=True is the identity on tables whose written lines have no outer "
     "blank; C14_strip_line_cex shows it is not strip_field), C14_keep_empty_lines / _positional (skip_empty_lines=False: every "
     "row after the header yields a record, a blank line the record {first name: '', others: None}). "
+    "Strip options in binary read mode (open finding C14-g: bytes.strip() removes ASCII blanks only): C14_strip_field_binary "
+    "(what the code does: the table of bytes.strip()-ed cells), C14_binary_strip_field_partial (for every ASCII-transparent encoder "
+    "and every table no cell of which has a non-ASCII-blank str.isspace() character at an edge, binary mode with strip_field yields "
+    "the text-mode table of C14_strip_field, encoded; + _positional variants), the full statement kept as C14_binary_strip_field_stmt and refuted by "
+    "C14_binary_strip_field_cex / C14_binary_strip_cex (x + U+00A0; a line that is only \\x1c: EOFError in text mode, a record in "
+    "binary mode), C14_strip_line_clean_binary. C14_native_leading_blank_cex: a blank line before the header makes csv.DictReader "
+    "(column_names=None) return every line under the key None - the standard reader's behaviour, load_csv yields the table. "
     "The models are compared with the real code on real files for the whole option product (including every "
     "SyntaxError/ReferenceError/KeyError/EOFError/ValueError/csv.Error/TypeError branch): list(load_csv(...)), the file layer "
     "with open()/readline() (also newline=''), the bytes save_csv writes, csv.reader on written lines and soup (one line, "
@@ -60,7 +69,10 @@ MANIFEST = dict(
     note="UTF-8 codec, universal-newline layer, tell/seek of text files, csv.writer and csv.reader (CPython _csv.c, "
     "field_size_limit not modelled) / csv.DictReader are modelled, not verified "
     "(each validated by its own stream); binary mode takes names as bytes. Model follows the code with fix patches C14-a..f. "
-    "strip_line on lines WITH outer blanks has no closed form (it depends on the quoting of the outer cells); covered by B.",
+    "strip_line on lines WITH outer blanks has no closed form (it depends on the quoting of the outer cells); covered by B. "
+    "Open finding C14-g (binary read mode + strip option + a non-ASCII-blank str.isspace() character at the edge of a cell/line): "
+    "the evaluators strip_field and eol_bom_invariant compare binary mode with the encoded text-mode table and suppress only "
+    "failures of exactly that shape inside that class; binary + strip with ASCII blanks is checked like everything else.",
     design_ref="5/C14",
 )
 
@@ -298,11 +310,24 @@ def table_valid(c):
                     return False
         if c["bom"] and c["bin"]:
             return False
+        if "pads" in c and not pads_valid(c["pads"]):
+            return False
+        if not isinstance(c.get("sf", False), bool) or not isinstance(c.get("sl", False), bool):
+            return False
         if not isinstance(c.get("sel", []), list) or not set(c.get("sel", [])) <= set(hdr) or len(set(c.get("sel", []))) != len(c.get("sel", [])):
             return False
         return True
     except Exception:
         return False
+
+
+def pads_valid(pads):
+    return isinstance(pads, list) and all(isinstance(p, list) and len(p) == 2 and all(isinstance(x, str) and all(ch in BLANKS for ch in x) for x in p) for p in pads)
+
+
+def gen_pads(rng, blanks):
+    """blanks to put around the cells of a table (consumed cyclically by padded_table)"""
+    return [[("".join(rng.choice(blanks) for _ in range(rng.choice([0, 0, 1, 2])))) for _ in range(2)] for _ in range(rng.randint(1, 5))]
 
 
 def first_data_row(rows):
@@ -483,11 +508,21 @@ def check_csv_module(c):
 
 
 def check_eol_bom_invariant(c):
-    """C: the same records for LF/CRLF and BOM/no BOM (text mode), binary = encoded text (no BOM)"""
+    """C: the same records for LF/CRLF and BOM/no BOM (text mode), binary = encoded text (no BOM) -
+    also with strip_field / strip_line (`sf`, `sl`) on a table written with blanks around its cells
+    (`pads`; the options name the cells without the blanks)"""
     bm = build_mode(c)
     if bm is None:
         return None
     with_header, k, _exp = bm
+    if c.get("sf"):
+        k = dict(k, strip_field=True)
+    if c.get("sl"):
+        k = dict(k, strip_line=True)
+    tab = c
+    if c.get("pads"):
+        phdr, prows = padded_table(c)
+        tab = dict(c, hdr=phdr, rows=prows)
     load_csv = impl()[0]
     res = {}
     for eol in EOLS:
@@ -495,7 +530,7 @@ def check_eol_bom_invariant(c):
             for binary in (False, True):
                 if bom and binary:
                     continue
-                cc = dict(c, eol=eol, bom=bom, bin=binary)
+                cc = dict(tab, eol=eol, bom=bom, bin=binary)
                 p = make_table_file(cc, with_header)
                 kw = encode_kwargs(dict(k, delimiter=c["d"]), binary)
                 if binary:
@@ -507,7 +542,10 @@ def check_eol_bom_invariant(c):
                 res[(eol, bom, binary)] = r
     vals = list(res.values())
     if any(v != vals[0] for v in vals):
-        return {"variants": {repr(kk): repr(v)[:200] for kk, v in res.items()}}
+        tv = [v for kk, v in res.items() if not kk[2]]
+        bv = [v for kk, v in res.items() if kk[2]]
+        return {"variants": {repr(kk): repr(v)[:200] for kk, v in res.items()},
+                "text_variants_agree": all(v == tv[0] for v in tv), "binary_variants_agree": all(v == bv[0] for v in bv)}
     return None
 
 
@@ -586,7 +624,36 @@ def cls_native_default(c, detail=None):
     return c.get("cn") is None and (c["ch"] == "D" or bool(CH_VALUES.get(c["ch"])))
 
 
+def cls_binary_unicode_blank(c, detail=None):
+    """C14-g: binary read mode, strip_field or strip_line, and a cell (strip_field) or written line
+    (strip_line) from whose edge str.strip() removes a blank that bytes.strip() leaves on the encoded
+    form (\\x1c-\\x1f, U+0085, U+00A0, U+2003 ...; `uni_edge`).  Applies to the evaluators that compare
+    binary mode with the encoded text-mode table (strip_field, eol_bom_invariant); B cases (`file`) are
+    not in the class: the model follows bytes.strip()."""
+    if "file" in c or "pads" not in c:
+        return False
+    hdr, rows = padded_table(c)
+    if "smode" in c:  # evaluator strip_field: strip_field=True, read mode `bin`
+        written = ([hdr] if c["smode"] == "file" else []) + rows
+        if isinstance(detail, dict) and detail.get("is_bytes_strip_table") is not True:
+            return False  # something else than "stripped with bytes.strip()" went wrong
+        return bool(c.get("bin")) and any(uni_edge(x) for r in written for x in r)
+    if "mode" in c and (c.get("sf") or c.get("sl")):  # evaluator eol_bom_invariant: always compares binary with text
+        bm = build_mode(c)
+        if bm is None:
+            return False
+        if isinstance(detail, dict) and not (detail.get("text_variants_agree") is True and detail.get("binary_variants_agree") is True):
+            return False  # the finding separates binary from text mode only
+        written = ([hdr] if bm[0] else []) + rows
+        if c.get("sf") and any(uni_edge(x) for r in written for x in r):
+            return True
+        if c.get("sl") and any(uni_edge(writer_line(r, c["d"], "")) for r in written):
+            return True
+    return False
+
+
 CLASSIFIERS = {
+    "cls_binary_unicode_blank": cls_binary_unicode_blank,
     "cls_native_default": cls_native_default,
     "cls_legacy_true": cls_legacy_true,
     "cls_xpath_name": cls_xpath_name,
@@ -610,6 +677,10 @@ def witness_fails(finding):
     w = finding["witness"]
     if "nmode" in w:
         return check_native_agrees(w) is not None
+    if "smode" in w:
+        return check_strip_field(w) is not None
+    if "mode" in w and "pads" in w:
+        return check_eol_bom_invariant(w) is not None
     if "mode" in w:
         return check_roundtrip(w) is not None
     if "file" in w:
@@ -617,14 +688,20 @@ def witness_fails(finding):
     return True
 
 
+def _fails_outside_known(fn, c):
+    """the case fails and not merely as an open known finding does (a shrunk case must fail for the same reason)"""
+    bad = fn(c)
+    return bad is not None and known_class(c, bad) is None
+
+
 def shrink_failure(evaluator, case):
     if evaluator in EVALS2:
         fn2, valid = EVALS2[evaluator]
-        return core.shrink(case, lambda c: bool(valid(c)) and fn2(c) is not None)
+        return core.shrink(case, lambda c: bool(valid(c)) and _fails_outside_known(fn2, c))
     fn = EVALS.get(evaluator)
     if fn is None:
         return case
-    return core.shrink(case, lambda c: table_valid(c) and c.get("via") in ("save_csv", "writer") and isinstance(c.get("bin"), bool) and isinstance(c.get("bom"), bool) and fn(c) is not None)
+    return core.shrink(case, lambda c: table_valid(c) and c.get("via") in ("save_csv", "writer") and isinstance(c.get("bin"), bool) and isinstance(c.get("bom"), bool) and _fails_outside_known(fn, c))
 
 
 def replay(rp):
@@ -921,33 +998,48 @@ NATIVE_MODES = ["both", "names", "file", "default"]
 
 
 def native_valid(c):
-    return table_valid(dict(c, mode="both", bin=False)) and c.get("nmode") in NATIVE_MODES and c.get("via") in ("save_csv", "writer")
+    return table_valid(dict(c, mode="both", bin=False)) and c.get("nmode") in NATIVE_MODES and c.get("via") in ("save_csv", "writer") and c.get("lead", 0) in (0, 1, 2)
+
+
+def add_leading_blank_lines(p, c):
+    """`lead` blank lines in front of the first line (after the BOM)"""
+    k = c.get("lead", 0)
+    if k:
+        b = open(p, "rb").read()
+        sig = b"\xef\xbb\xbf" if b.startswith(b"\xef\xbb\xbf") else b""
+        open(p, "wb").write(sig + c["eol"].encode() * k + b[len(sig):])
+    return p
 
 
 def check_native_agrees(c):
     """C14_native_*: on a saved table, load_native_csv yields the records of load_csv (surplus cells
-    under the key None apart) and both are the table"""
+    under the key None apart) and both are the table - also when blank lines precede the first line
+    (`lead`), except that csv.DictReader, left to find the field names itself (column_names=None), takes
+    the first record even when it is the empty one: every non-empty line, the header included, then
+    comes back as {None: cells} (C14_native_leading_blank_cex) while load_csv still yields the table"""
     load_csv, save_csv, load_native_csv, load_simple_csv = impl()
     d, hdr, rows, m = c["d"], c["hdr"], c["rows"], c["nmode"]
     data = [r for r in rows if r]
     cc = dict(c, bin=False)
+    _mk = make_table_file
+    make_table_file_ = lambda cc_, wh: add_leading_blank_lines(_mk(cc_, wh), c)
     if m == "both":
-        p = make_table_file(cc, True)
+        p = make_table_file_(cc, True)
         nk = dict(column_names=list(hdr), contains_header=True)
         lk = dict(column_names=list(hdr), header_is_mandatory=True)
     elif m == "names":
         first = first_data_row(rows)
         if first is None or all(n in first for n in hdr):
             return None
-        p = make_table_file(cc, False)
+        p = make_table_file_(cc, False)
         nk = dict(column_names=list(hdr), contains_header=False)
         lk = dict(column_names=list(hdr))
     elif m == "file":
-        p = make_table_file(cc, True)
+        p = make_table_file_(cc, True)
         nk = dict(contains_header=False)
         lk = dict(header_is_mandatory=True)
     else:
-        p = make_table_file(cc, True)
+        p = make_table_file_(cc, True)
         nk = dict()
         lk = dict(header_is_mandatory=True)
     a = core.call(lambda: [dict(x) for x in load_native_csv(p, delimiter=d, **nk)])
@@ -956,6 +1048,11 @@ def check_native_agrees(c):
     bad = {"native": repr(a)[:300], "load_csv": repr(b)[:300], "want": repr(want)[:300], "native_kwargs": repr(nk), "file": repr(open(p, "rb").read())[:300]}
     if a[0] != "ok" or b[0] != "ok":
         return bad
+    if c.get("lead", 0) and m in ("file", "default"):
+        # the standard DictReader's reading of a file that starts with a blank line
+        if a[1] != [{None: list(r)} for r in [hdr] + data] or b[1] != want:
+            return dict(bad, leading_blank_lines=c["lead"])
+        return None
     for x, r in zip(a[1], data):
         rest = x.pop(None, None)
         if rest != (r[len(hdr):] or None):
@@ -1008,14 +1105,23 @@ def check_simple_soup(c):
 
 
 # ---- C: closed forms for strip_field / strip_line / skip_empty_lines=False ----------------------
-BLANKS = [" ", "\t", "\xa0", " ", "\x0b"]
+BLANKS = [" ", "\t", "\xa0", "\u2003", "\x0b", "\x85", "\x1c", "\u2028", "\u3000", "\x0c"]
+ASCII_BLANKS = [" ", "\t", "\x0b", "\x0c"]
+ASCII_WS = " \t\n\r\x0b\x0c"  # what bytes.strip() removes (str.strip() removes every str.isspace() character)
+
+
+def uni_edge(s):
+    """str.strip() removes from `s` a blank that bytes.strip() leaves on its encoded form (\\x1c-\\x1f, U+0085, U+00A0, U+2003 ...)"""
+    return s.strip() != s.strip(ASCII_WS)
 
 
 def strip_valid(c):
     try:
-        if not table_valid(dict(c, mode="file:mand", bin=False)) or c.get("via") not in ("save_csv", "writer") or c.get("smode") not in ("file", "pos"):
+        if not isinstance(c.get("bin", False), bool):
             return False
-        return isinstance(c["pads"], list) and all(isinstance(p, list) and len(p) == 2 and all(isinstance(x, str) and all(ch in BLANKS for ch in x) for x in p) for p in c["pads"])
+        if not table_valid(dict(c, mode="file:mand", bin=c.get("bin", False))) or c.get("via") not in ("save_csv", "writer") or c.get("smode") not in ("file", "pos"):
+            return False
+        return pads_valid(c["pads"])
     except Exception:
         return False
 
@@ -1037,29 +1143,40 @@ def padded_table(c):
 
 def check_strip_field(c):
     """C14_strip_field: strip_field=True on a table whose written cells carry surrounding blanks
-    yields the records of the table of stripped cells (names stripped too)"""
+    yields the records of the table of stripped cells (names stripped too); in binary read mode
+    (`bin`) the same table as encoded bytes ("binary read mode yields the same table as encoded bytes")"""
     load_csv = impl()[0]
     d = c["d"]
+    binary = bool(c.get("bin", False))
     hdr, rows = padded_table(c)
-    if d in "".join(BLANKS) and False:
-        return None
     shdr = [x.strip() for x in hdr]
     srows = [[x.strip() for x in r] for r in rows if r]
     if len(set(shdr)) != len(shdr):
         return None
-    cc = dict(c, hdr=hdr, rows=rows, bin=False)
+    cc = dict(c, hdr=hdr, rows=rows, bin=binary)
+    kw = encode_kwargs(dict(delimiter=d, strip_field=True), binary)
+    kw["delimiter"] = d
     if c["smode"] == "file":
         p = make_table_file(cc, True)
-        r = core.call(lambda: [list(x.items()) for x in load_csv(p, delimiter=d, header_is_mandatory=True, strip_field=True)])
+        r = core.call(lambda: [list(x.items()) for x in load_csv(p, header_is_mandatory=True, **kw)])
         want = [rec_of(shdr, row) for row in srows]
     else:
         if not srows:
             return None
         p = make_table_file(cc, False)
-        r = core.call(lambda: [list(x.items()) for x in load_csv(p, delimiter=d, strip_field=True)])
+        r = core.call(lambda: [list(x.items()) for x in load_csv(p, **kw)])
         want = [rec_of(list(range(len(srows[0]))), row) for row in srows]
+    want = encode_expected(want, binary)
     if r != ("ok", want):
-        return {"got": repr(r)[:300], "want": repr(want)[:300], "file": repr(open(p, "rb").read())[:300]}
+        bad = {"got": repr(r)[:300], "want": repr(want)[:300], "kwargs": repr(kw), "file": repr(open(p, "rb").read())[:300]}
+        if binary:
+            # what C14-g describes, and nothing else: the table of bytes.strip()-ed encoded cells
+            e = lambda x: x.encode("utf-8").strip()
+            bhdr = [e(x) for x in hdr]
+            brows = [[e(x) for x in r_] for r_ in rows if r_]
+            alt = [rec_of(bhdr if c["smode"] == "file" else list(range(len(brows[0]))), row) for row in brows]
+            bad["is_bytes_strip_table"] = r == ("ok", alt)
+        return bad
     return None
 
 
@@ -1076,15 +1193,20 @@ def check_strip_line_clean(c):
     if not outer_clean(c):
         return None
     bm = build_mode(c)
-    if bm is None or c["bin"]:
+    if bm is None:
         return None
-    with_header, k, _exp = bm
+    with_header, k, exp = bm
     p = make_table_file(c, with_header)
-    kw = dict(k, delimiter=c["d"])
+    kw = encode_kwargs(dict(k, delimiter=c["d"]), c["bin"])
+    kw["delimiter"] = c["d"]
     a = core.call(lambda: [list(x.items()) for x in load_csv(p, strip_line=True, **kw)])
     b = core.call(lambda: [list(x.items()) for x in load_csv(p, **kw)])
     if a != b:
         return {"strip_line": repr(a)[:300], "plain": repr(b)[:300], "kwargs": repr(kw), "file": repr(open(p, "rb").read())[:300]}
+    # ... and it is the saved table (in binary read mode: the text-mode table, encoded)
+    exp = encode_expected(exp, c["bin"])
+    if a != (("err", exp) if isinstance(exp, str) else ("ok", exp)):
+        return {"strip_line": repr(a)[:300], "want": repr(exp)[:300], "kwargs": repr(kw), "file": repr(open(p, "rb").read())[:300]}
     return None
 
 
@@ -1095,10 +1217,13 @@ def check_keep_empty_lines(c):
     load_csv = impl()[0]
     d, hdr, rows = c["d"], c["hdr"], c["rows"]
     cells = lambda r: r if r else [""]
-    cc = dict(c, bin=False, trim=False)
+    binary = bool(c.get("bin", False))
+    cc = dict(c, bin=binary, trim=False)
+    kw = encode_kwargs(dict(delimiter=d, skip_empty_lines=False), binary)
+    kw["delimiter"] = d
     if c["smode"] == "file":
         p = make_table_file(cc, True)
-        r = core.call(lambda: [list(x.items()) for x in load_csv(p, delimiter=d, header_is_mandatory=True, skip_empty_lines=False)])
+        r = core.call(lambda: [list(x.items()) for x in load_csv(p, header_is_mandatory=True, **kw)])
         want = [rec_of(hdr, cells(row)) for row in rows]
     else:
         rest = list(rows)
@@ -1107,8 +1232,9 @@ def check_keep_empty_lines(c):
         if not rest:
             return None
         p = make_table_file(cc, False)
-        r = core.call(lambda: [list(x.items()) for x in load_csv(p, delimiter=d, skip_empty_lines=False)])
+        r = core.call(lambda: [list(x.items()) for x in load_csv(p, **kw)])
         want = [rec_of(list(range(len(rest[0]))), cells(row)) for row in rest]
+    want = encode_expected(want, binary)
     if r != ("ok", want):
         return {"got": repr(r)[:300], "want": repr(want)[:300], "file": repr(open(p, "rb").read())[:300]}
     return None
@@ -1209,8 +1335,9 @@ def run_reader(ctx, cases, scases, rcases):
     rng = ctx.rng("native_agrees")
     tcases = []
     for i, c in enumerate(rcases):
-        tcases.append({k: c[k] for k in ("d", "hdr", "rows", "eol", "bom", "via", "trim")} | {"nmode": NATIVE_MODES[i % 4]})
+        tcases.append({k: c[k] for k in ("d", "hdr", "rows", "eol", "bom", "via", "trim")} | {"nmode": NATIVE_MODES[i % 4], "lead": rng.choice([0, 0, 0, 1, 2])})
     ctx.evaluate("native_agrees", tcases, check_native_agrees, in_known=known_class, nontrivial=lambda c: bool(c["rows"]))
+    ctx.extra["native_leading_blank"] = {m: sum(1 for c in tcases if c["lead"] and c["nmode"] == m) for m in NATIVE_MODES}
 
     # load_simple_csv: tables whose cells need no quoting, every header mode, strip options too
     rng = ctx.rng("simple_agrees")
@@ -1239,14 +1366,17 @@ def run_reader(ctx, cases, scases, rcases):
     rng = ctx.rng("strip")
     pcases = []
     for i, c in enumerate(rcases):
-        pads = [[("".join(rng.choice(BLANKS) for _ in range(rng.choice([0, 0, 1, 2])))) for _ in range(2)] for _ in range(rng.randint(1, 5))]
+        binary = rng.random() < 0.4
+        # binary read mode: half of the tables carry only blanks that bytes.strip() removes too (outside C14-g)
+        pads = gen_pads(rng, ASCII_BLANKS if (binary and rng.random() < 0.5) else BLANKS)
         # the cells of the property: written with blanks around a core that has none at its ends
         core_ = lambda x: x.strip()
         hdr = [core_(x) for x in c["hdr"]]
         if len(set(hdr)) != len(hdr):
             continue
-        pcases.append({"d": c["d"], "hdr": hdr, "rows": [[core_(x) for x in r] for r in c["rows"]], "eol": c["eol"], "bom": c["bom"],
-                       "via": c["via"], "trim": c["trim"], "pads": pads, "smode": ("file", "pos")[i % 2]})
+        pcases.append({"d": c["d"], "hdr": hdr, "rows": [[core_(x) for x in r] for r in c["rows"]], "eol": c["eol"],
+                       "via": c["via"], "trim": c["trim"], "pads": pads, "smode": ("file", "pos")[i % 2], "bin": binary,
+                       "bom": c["bom"] and not binary})
     ctx.evaluate("strip_field", pcases, check_strip_field, in_known=known_class, nontrivial=lambda c: bool(c["rows"]) and any(p != ["", ""] for p in c["pads"]))
     ctx.evaluate("keep_empty_lines", pcases, check_keep_empty_lines, in_known=known_class, nontrivial=lambda c: any(not r for r in c["rows"]))
     ctx.evaluate("strip_line_clean", rcases[2 :: 3], check_strip_line_clean, in_known=known_class, nontrivial=lambda c: bool(c["rows"]))
@@ -1380,7 +1510,25 @@ def run(ctx):
     ctx.evaluate("roundtrip", rcases, check_roundtrip, in_known=known_class, nontrivial=nt)
     sub = rcases[:: 4]
     ctx.evaluate("csv_module", sub, check_csv_module, in_known=known_class, nontrivial=nt)
-    ctx.evaluate("eol_bom_invariant", rcases[1 :: 6], check_eol_bom_invariant, in_known=known_class, nontrivial=nt)
+    # LF/CRLF x BOM x read mode, also under the strip options: tables written with blanks around the cells
+    rng = ctx.rng("eol_bom_strip")
+    ecases = []
+    for c in rcases[1 :: 6]:
+        hdr = [x.strip() for x in c["hdr"]]
+        if rng.random() < 0.4 or len(set(hdr)) != len(hdr):
+            ecases.append(c)
+            continue
+        which = rng.choice(["sf", "sf", "sl", "both"])
+        ecases.append(dict(
+            c, hdr=hdr, sel=[x.strip() for x in c["sel"]], rows=[[x.strip() for x in r] for r in c["rows"]],
+            pads=gen_pads(rng, ASCII_BLANKS if rng.random() < 0.5 else BLANKS), sf=which in ("sf", "both"), sl=which in ("sl", "both"),
+        ))
+    ctx.evaluate("eol_bom_invariant", ecases, check_eol_bom_invariant, in_known=known_class, nontrivial=nt)
+    ctx.extra["eol_bom_strip"] = {
+        "plain": sum(1 for c in ecases if "pads" not in c),
+        "strip, blanks bytes.strip() removes too": sum(1 for c in ecases if "pads" in c and not cls_binary_unicode_blank(c)),
+        "strip, inside the class of C14-g": sum(1 for c in ecases if "pads" in c and cls_binary_unicode_blank(c)),
+    }
 
     ctx.extra["modes"] = {m: sum(1 for c in rcases if c["mode"] == m and build_mode(c) is not None) for m in modes}
     ctx.extra["assumptions"] = [
@@ -1392,6 +1540,7 @@ def run(ctx):
         "process_field/process_line/parse_csv_line callables, other encodings and the ignored EOL argument are outside the model",
         "an empty file (no header, no rows) is refused with EOFError by an explicit branch; the no-header modes are stated for tables with at least one non-empty row",
         "model follows the code with fix patches C14-a..f applied",
+        "binary read mode strips with bytes.strip() (ASCII blanks), text mode with str.strip(): open finding C14-g; the model follows the code",
         "csv.reader: model of CPython 3.12 Modules/_csv.c parse_process_char / Reader_iternext for dialect excel + delimiter, strict=True (no escapechar, no skipinitialspace, QUOTE_MINIMAL); csv.field_size_limit() (131072) not modelled; validated by stream csvr.reader",
         "csv.DictReader (restkey=None, restval=None, blank rows skipped, fieldnames from the first row when not given) is modelled and validated by stream csvr.native; a file opened with newline='' by stream csvr.nllines",
         "load_simple_csv is modelled as load_csv with the split parser (loadLinesWith; Lean lemma loadLinesWith parseLine = loadLines), validated by stream csvr.simple; in binary mode it raises TypeError (str argument to bytes.rstrip)",
